@@ -194,8 +194,8 @@ func (c *Ctx) symEval(fn *ssa.Function, v ssa.Value, useBlock *ssa.BasicBlock, s
 		}
 		return out
 	case *ssa.Parameter:
-		// closure parameter: bind from the call sites of the closure
-		if fn.Parent() != nil && x.Parent() == fn {
+		// closure parameter, or parameter of an unexported fixture helper: bind from the call sites
+		if (fn.Parent() != nil || c.isFixtureHelper(fn)) && x.Parent() == fn {
 			idx := -1
 			for i, p := range fn.Params {
 				if p == x {
@@ -311,10 +311,7 @@ func c19(c *Ctx) {
 		if !ok || rel != "testutil" {
 			continue
 		}
-		outer := fn
-		for outer.Parent() != nil {
-			outer = outer.Parent()
-		}
+		outer := c.generatorOf(fn, 0)
 		// D of the generator: symbolic value stored to Path of an entry in the outermost function that is a single val atom
 		for _, b := range fn.Blocks {
 			for _, ins := range b.Instrs {
@@ -437,6 +434,7 @@ func c19(c *Ctx) {
 	// ---- G3
 	c.checkEntryPairing()
 	c.checkNoChildrenReuse()
+	c.checkOwnOptionsLast()
 
 	// ---- R9.7
 	dead := core.NeverAssignedLocals(tp, func(fd *ast.FuncDecl) bool { return true })
@@ -456,6 +454,49 @@ func c19(c *Ctx) {
 
 func sameCycle(a, b *ssa.BasicBlock) bool {
 	return a == b || (blockReaches(a, b) && blockReaches(b, a))
+}
+
+// isFixtureHelper: an unexported package-level function of testutil all of whose callers call it statically.
+func (c *Ctx) isFixtureHelper(fn *ssa.Function) bool {
+	if fn == nil || fn.Parent() != nil || fn.Signature.Recv() != nil || fn.Object() == nil || fn.Object().Exported() {
+		return false
+	}
+	if rel, ok := c.P.PkgOf(fn); !ok || rel != "testutil" {
+		return false
+	}
+	n := 0
+	for _, e := range c.G.In[fn] {
+		cs, ok := e.Site.(ssa.CallInstruction)
+		if !ok || cs.Common().StaticCallee() != fn {
+			return false
+		}
+		n++
+	}
+	return n > 0
+}
+
+// generatorOf: the function whose own path a store in fn is relative to: fn's outermost enclosing function, or — for a
+// fixture helper — the generator all of its callers belong to.
+func (c *Ctx) generatorOf(fn *ssa.Function, depth int) *ssa.Function {
+	outer := fn
+	for outer.Parent() != nil {
+		outer = outer.Parent()
+	}
+	if depth > 3 || !c.isFixtureHelper(outer) {
+		return outer
+	}
+	var g *ssa.Function
+	for _, e := range c.G.In[outer] {
+		o := c.generatorOf(e.Caller, depth+1)
+		if g != nil && o != g {
+			return outer
+		}
+		g = o
+	}
+	if g == nil {
+		return outer
+	}
+	return g
 }
 
 // ownPath returns the symbolic value a generator stores as its own directory path: the single-`val` Path store of the outer function.
@@ -840,13 +881,37 @@ func (c *Ctx) checkDupePredicate() {
 		n++
 		key := core.FuncName(fn) + "/last-segment"
 		lastSeg, firstSeg := false, ""
+		// calls of the predicate itself, and of a fixture helper it hands the child's Path to (the helper's parameter then
+		// stands for the Path)
+		type scanned struct {
+			ci     ssa.CallInstruction
+			isPath func(ssa.Value) bool
+		}
+		var calls []scanned
+		direct := func(v ssa.Value) bool { return strings.HasSuffix(c.varPath(v, 0), ".Path") }
 		for _, ci := range core.CallsIn(fn) {
+			calls = append(calls, scanned{ci, direct})
+			if h := ci.Common().StaticCallee(); h != nil && len(h.Blocks) > 0 {
+				if hrel, isRepo := c.P.PkgOf(h); isRepo && hrel == "testutil" {
+					for ai, a := range ci.Common().Args {
+						if direct(a) && ai < len(h.Params) {
+							hp := ssa.Value(h.Params[ai])
+							for _, hci := range core.CallsIn(h) {
+								calls = append(calls, scanned{hci, func(v ssa.Value) bool { return v == hp }})
+							}
+						}
+					}
+				}
+			}
+		}
+		for _, sc := range calls {
+			ci := sc.ci
 			f := ci.Common().StaticCallee()
 			if f == nil || f.Pkg == nil {
 				continue
 			}
 			pathArg := func(i int) bool {
-				return i < len(ci.Common().Args) && strings.HasSuffix(c.varPath(ci.Common().Args[i], 0), ".Path")
+				return i < len(ci.Common().Args) && sc.isPath(ci.Common().Args[i])
 			}
 			sepIsSlash := func(i int) bool {
 				if i >= len(ci.Common().Args) {
@@ -881,9 +946,114 @@ func (c *Ctx) checkDupePredicate() {
 		if !lastSeg {
 			bad = append(bad, "the child's name is not derived from the last \"/\"-segment of its Path")
 		}
+		// like is compared with like: if one side of the deciding comparison has its extension cut off, so has the other
+		for _, b := range fn.Blocks {
+			iff := core.BlockIf(b)
+			if iff == nil {
+				continue
+			}
+			bo, ok := iff.Cond.(*ssa.BinOp)
+			if !ok || (bo.Op != token.EQL && bo.Op != token.NEQ) || !isBasic(bo.X.Type(), types.String) {
+				continue
+			}
+			if _, isK := bo.X.(*ssa.Const); isK {
+				continue
+			}
+			if _, isK := bo.Y.(*ssa.Const); isK {
+				continue
+			}
+			sx, sy := c.cutsExtension(bo.X, 0, map[ssa.Value]bool{}), c.cutsExtension(bo.Y, 0, map[ssa.Value]bool{})
+			if sx != sy {
+				bad = append(bad, fmt.Sprintf("the comparison at %s has the extension cut from one operand only: a candidate with an extension never equals a sibling's stem, so duplicate names pass", c.P.Pos(bo.Pos())))
+			}
+		}
 		r.Check(len(bad) == 0, "G2", key, c.P.Pos(fn.Pos()), "sibling names are compared by the last \"/\"-segment of Path, the segment packDirectory stores as link name", strings.Join(bad, "; "))
 	}
 	r.Floor("G2/predicate", n, 1)
+}
+
+// cutsExtension: the string value may have had everything from its last "." removed (x[:strings.LastIndex(x, ".")],
+// strings.TrimSuffix(x, path.Ext(x)), directly, on one phi edge, or inside a fixture helper that returns it).
+func (c *Ctx) cutsExtension(v ssa.Value, depth int, seen map[ssa.Value]bool) bool {
+	if v == nil || depth > 10 || seen[v] {
+		return false
+	}
+	seen[v] = true
+	isDot := func(a ssa.Value) bool {
+		k, ok := a.(*ssa.Const)
+		if !ok || k.Value == nil {
+			return false
+		}
+		if k.Value.Kind() == constant.String {
+			return constant.StringVal(k.Value) == "."
+		}
+		if n, ok := core.ConstInt(k); ok {
+			return n == '.'
+		}
+		return false
+	}
+	var fromDotIndex func(a ssa.Value, d int) bool
+	fromDotIndex = func(a ssa.Value, d int) bool {
+		if d > 6 || a == nil {
+			return false
+		}
+		switch x := core.Unconv(a).(type) {
+		case *ssa.Call:
+			if f := x.Call.StaticCallee(); f != nil && f.Pkg != nil && f.Pkg.Pkg.Path() == "strings" && strings.Contains(f.Name(), "Index") && len(x.Call.Args) == 2 {
+				return isDot(x.Call.Args[1])
+			}
+		case *ssa.Phi:
+			for _, e := range x.Edges {
+				if fromDotIndex(e, d+1) {
+					return true
+				}
+			}
+		case *ssa.BinOp:
+			return fromDotIndex(x.X, d+1) || fromDotIndex(x.Y, d+1)
+		}
+		return false
+	}
+	switch x := v.(type) {
+	case *ssa.Slice:
+		if x.High != nil && fromDotIndex(x.High, 0) {
+			return true
+		}
+		return c.cutsExtension(x.X, depth+1, seen)
+	case *ssa.Phi:
+		for _, e := range x.Edges {
+			if c.cutsExtension(e, depth+1, seen) {
+				return true
+			}
+		}
+	case *ssa.UnOp:
+		if al, ok := x.X.(*ssa.Alloc); ok && x.Op == token.MUL {
+			for _, ref := range *al.Referrers() {
+				if st, ok := ref.(*ssa.Store); ok && st.Addr == ssa.Value(al) && c.cutsExtension(st.Val, depth+1, seen) {
+					return true
+				}
+			}
+		}
+	case *ssa.Call:
+		f := x.Call.StaticCallee()
+		if f == nil {
+			return false
+		}
+		if f.Pkg != nil && f.Pkg.Pkg.Path() == "strings" && f.Name() == "TrimSuffix" && len(x.Call.Args) == 2 {
+			if ec, ok := x.Call.Args[1].(*ssa.Call); ok && ec.Call.StaticCallee() != nil && ec.Call.StaticCallee().Name() == "Ext" {
+				return true
+			}
+		}
+		if rel, ok := c.P.PkgOf(f); ok && rel == "testutil" && len(f.Blocks) > 0 {
+			for _, ret := range core.Returns(f) {
+				for _, rv := range core.ResolvedResults(ret) {
+					if isBasic(rv.Type(), types.String) && c.cutsExtension(rv, depth+1, seen) {
+						return true
+					}
+				}
+			}
+		}
+	}
+	return false
 }
 
 // isDupePredicate: the sibling-uniqueness predicate by role — func(children []DirEntry, name string) bool in testutil.
@@ -970,4 +1140,104 @@ func (c *Ctx) checkNoChildrenReuse() {
 		}
 	}
 	r.Floor("G4", n, 1)
+}
+
+// checkOwnOptionsLast implements G5: options are applied in order and the last one wins, so the path option a generator
+// builds for a child (WithDirname(child path)) must come after the options inherited from the caller. The rule follows the
+// slice that carries the child's own path option — through append, phis and fixture helpers — and reports an append that
+// puts a caller-supplied []Option after it.
+func (c *Ctx) checkOwnOptionsLast() {
+	r := c.R
+	r.Rule("G5", "a child's own path option is applied after the inherited options: the slice carrying WithDirname(child path) is never the base of an append whose appended part is a caller-supplied option list (options are applied in order, the last WithDirname wins, so a reversed concatenation generates the child under its parent's path)")
+	isOptSliceParam := func(v ssa.Value) bool {
+		for i := 0; i < 6; i++ {
+			switch x := v.(type) {
+			case *ssa.Slice:
+				v = x.X
+				continue
+			case *ssa.Parameter:
+				sl, ok := x.Type().Underlying().(*types.Slice)
+				if !ok {
+					return false
+				}
+				_, isFn := sl.Elem().Underlying().(*types.Signature)
+				return isFn
+			}
+			break
+		}
+		return false
+	}
+	n := 0
+	for _, fn := range c.G.Funcs() {
+		rel, ok := c.P.PkgOf(fn)
+		if !ok || rel != "testutil" {
+			continue
+		}
+		ord := 0
+		for _, ci := range core.CallsIn(fn) {
+			call, ok := ci.(*ssa.Call)
+			if !ok {
+				continue
+			}
+			f := call.Call.StaticCallee()
+			if f == nil || f.Name() != "WithDirname" {
+				continue
+			}
+			if frel, ok := c.P.PkgOf(f); !ok || frel != "testutil" {
+				continue
+			}
+			ord++
+			n++
+			key := fmt.Sprintf("%s/own-path-option-last#%d", core.FuncName(fn), ord)
+			var bad []string
+			seen := map[ssa.Value]bool{}
+			var follow func(v ssa.Value, own bool, depth int)
+			follow = func(v ssa.Value, own bool, depth int) {
+				if v == nil || seen[v] || depth > 8 || v.Referrers() == nil {
+					return
+				}
+				seen[v] = true
+				for _, ref := range *v.Referrers() {
+					switch x := ref.(type) {
+					case *ssa.Store:
+						// the option value stored into a varargs / literal array: follow the slices taken of it
+						if x.Val != v {
+							continue
+						}
+						if ia, ok := x.Addr.(*ssa.IndexAddr); ok {
+							if al, ok := ia.X.(*ssa.Alloc); ok {
+								for _, r2 := range *al.Referrers() {
+									if sl, ok := r2.(*ssa.Slice); ok {
+										follow(sl, true, depth+1)
+									}
+								}
+							}
+						}
+					case *ssa.Slice:
+						follow(x, own, depth+1)
+					case *ssa.Phi:
+						follow(x, own, depth+1)
+					case *ssa.Call:
+						if bi, ok := x.Call.Value.(*ssa.Builtin); ok && bi.Name() == "append" && len(x.Call.Args) == 2 {
+							if x.Call.Args[0] == v && isOptSliceParam(x.Call.Args[1]) {
+								bad = append(bad, fmt.Sprintf("append at %s puts a caller-supplied option list after the child's own path option", c.P.Pos(x.Pos())))
+							}
+							follow(x, own, depth+1)
+							continue
+						}
+						if h := x.Call.StaticCallee(); h != nil && len(h.Blocks) > 0 && c.isFixtureHelper(h) {
+							for i, a := range x.Call.Args {
+								if a == v && i < len(h.Params) {
+									follow(h.Params[i], own, depth+1)
+								}
+							}
+						}
+					}
+				}
+			}
+			follow(call, true, 0)
+			r.Check(len(bad) == 0, "G5", key, c.P.Pos(call.Pos()), "no append places inherited options after the child's own path option", uniqJoin(bad))
+		}
+	}
+	r.Floor("G5", n, 1)
 }
